@@ -45,6 +45,11 @@ class ClauseTheory(CompilerTheory):
         return None
 
     def isinstance(self, ex, v, cls, st, node):
+        if v.sort == 'Stmt':
+            m = {'YPCodeForeach': OR('((_ is SForeach) %s)' % v.e, '((_ is SUnify) %s)' % v.e), 'YPCodeBreakableBlock': '((_ is SBlock) %s)' % v.e,
+                 'YPCodeBreakBlock': '((_ is SBreak) %s)' % v.e, 'YPCodeAssign': OR('((_ is SAlias) %s)' % v.e, '((_ is SDecl) %s)' % v.e)}
+            if cls in m:
+                return m[cls]
         if v.sort == 'TA' and cls in TA_CLASSES:
             return '((_ is %s) %s)' % (TA_CLASSES[cls], v.e)
         return CompilerTheory.isinstance(self, ex, v, cls, st, node)
@@ -62,6 +67,12 @@ class ClauseTheory(CompilerTheory):
             if attr == 'name':
                 ex.oblige(st, 'safety.attr.name', '((_ is TAFun) %s)' % b, 'safety')
                 return [(st, SV('TAFunName', b))]
+        if base.sort == 'Stmt' and attr == 'loop_code':
+            ex.oblige(st, 'safety.attr.loop_code', OR('((_ is SForeach) %s)' % b, '((_ is SUnify) %s)' % b), 'safety')
+            return [(st, SV('Code', ITE('((_ is SForeach) %s)' % b, '(fc %s)' % b, '(uc %s)' % b)))]
+        if base.sort == 'Stmt' and attr == 'body':
+            ex.oblige(st, 'safety.attr.body', '((_ is SBlock) %s)' % b, 'safety')
+            return [(st, SV('Code', '(bc %s)' % b))]
         if base.sort == 'TAFunName' and attr == 'value':
             return [(st, SV('Str', '(tafname %s)' % b))]
         if base.sort == 'CSelf' and attr == 'head_args_by_pos':
@@ -188,6 +199,8 @@ class ClauseTheory(CompilerTheory):
 
     def apply_name(self, ex, e, name, args, st):
         so = [a.sort for a in args]
+        if name == 'max' and so == ['Int', 'Int']:
+            return [(st, SV('Int', ITE('(>= %s %s)' % (args[0].e, args[1].e), args[0].e, args[1].e)))]
         if name == 'len' and so == ['TAL']:
             return [(st, SV('Int', '(talen %s)' % args[0].e))]
         if name == 'YPCodeVar' and len(args) == 1:
@@ -292,6 +305,15 @@ class ClauseTheory(CompilerTheory):
                 for cls_, cond in c.raises.items():
                     outs.append((st3.fork().tag('comprehension.raises:' + cls_), Exc(cls_)))
         return outs
+
+    def st_For(self, ex, s, v, st, k):
+        if v.sort == 'Code' and isinstance(s.target, ast.Name):
+            n, spec = ex.loop_spec(s)
+            if spec is None:
+                raise OutOfSubset('loop %d of %s has no invariant in the sidecar contract' % (n, ex.qualname), s)
+            ex._for_range(s, n, spec, SV('Int', '(clen %s)' % v.e), st, k, elem=lambda kx: SV('Stmt', '(cnth %s %s)' % (v.e, kx)))
+            return True
+        return False
 
     def contract_views(self, ex, a, st):
         if a.sort == 'HeadFunctor':
